@@ -3,6 +3,7 @@
   `BufWriter` with its 8 KiB rule, `is_buffer_dirty`, fsync / fdatasync, any fault plan).
 -/
 import FjallModel.Lemmas.Writer
+import FjallModel.Lemmas.WriterDir
 import FjallModel.Props.C03
 namespace Fjall.Journal
 open Fjall
@@ -63,6 +64,31 @@ theorem c09_rotate_seals_durably (db : JDb) (hinv : db.w.Inv) (h : (jstep db .ro
         · simp [jstep, hp', hq, hok.2.1]
         · simp [jstep, hp', hq]
         · simp [jstep, hp', hq, hok.1]
+
+/-- **Journal files survive a power loss.** For every database state at an operation boundary
+    (`FilesOk`: holds for a fresh database) and every sequence of operations – writes, batches,
+    persists at any level, any number of journal rotations, under any fault plan – a power loss
+    after the last operation leaves *every* journal file created so far in the folder: each sealed
+    one with its whole content, the active one with everything covered by its last sync.  Rests on
+    `Writer::rotate` syncing the folder after it created the next file (`dirsync` in the model's
+    trace, compared with the real run's trace by the `fault` engine). -/
+theorem c09_journal_files_survive_power_loss (db : JDb) (ops : List JOp) (h : db.FilesOk) :
+    (jrun db ops).1.powerLossFiles =
+      (jrun db ops).1.sealed.map (·.1) ++ [(jrun db ops).1.w.os.take (jrun db ops).1.w.synced] :=
+  powerLossFiles_of_filesOk _ (jrun_filesOk db ops h)
+
+/-- the fresh database satisfies the hypothesis -/
+theorem c09_fresh_filesOk (manual : Bool) : ({ manual := manual } : JDb).FilesOk :=
+  ⟨fun _ _ => rfl, rfl, rfl, (fun p hp => nomatch hp), rfl⟩
+
+/-- without the folder sync in `rotate` (seeded change C09-7) the file created by a rotation has no
+    durable directory entry: a write made durable with `SyncAll` *after* the rotation is in a file
+    that a power loss removes as a whole -/
+theorem c09_rotate_without_folder_sync_loses_file :
+    let db := (jrun ({ rotateSyncsFolder := false } : JDb)
+      [.rotate, .batch [[1, 2, 3]] (some .syncAll)]).1
+    db.w.synced = 3 ∧ db.sealed.length = 1 ∧ db.powerLossFiles.length = 1 := by
+  decide
 
 /-! What is durable is readable: the power-loss image `durable prefix ++ zero padding` of a journal
     made of complete batches `bs` followed by a partially synced batch reads back as `bs` — that is
